@@ -487,7 +487,15 @@ def work_ap(chunk_id, payload):
         lines["addcal"] = s.op("ci=vnacal_add_calibration $vc \"c\" $vn")
         s.op("vd=vnadata_alloc")
         fa, fb = sc.freqs[0], sc.freqs[-1]
-        if F >= 2:
+        if F >= 3 and rng.random() < 0.35:
+            # a different sweep over the same band: as many points as the
+            # calibration has, the same first and last frequency, other
+            # points in between (a linear-sweep calibration applied to a log
+            # sweep)
+            q = sorted([float(fa), float(fb)] + [float(x) for x in
+                                                 rng.uniform(fa, fb, F - 2)])
+            bump(part, "ap_same_count_same_ends_requests")
+        elif F >= 2:
             q = between_points(rng, sc.freqs, per=1)
             q += [float(x) for x in sc.freqs[rng.random(F) < 0.5]]
             q = sorted(set(q))
